@@ -67,6 +67,28 @@ def run(chk):
                     chk.fail("%s enrolment from statistics held in Dask arrays differs from the same statistics in NumPy arrays" % kind, ctx)
             except Exception as e:
                 chk.fail("%s enrolment from statistics held in Dask arrays raises %r" % (kind, e), ctx)
+        if i % 5 == 4:
+            # the same problem with the features in units 1e7 times larger (UBM variances of order 1e-14): the factors are the same
+            # (x and y exactly, z up to the signs of D, which are kept) - nothing absolute is added to the variances anywhere
+            sc_ = 1e-7
+            import copy as _cp
+            ubm_s = _cp.deepcopy(ubm)
+            ubm_s.variance_thresholds = 0.0
+            ubm_s.means = np.asarray(ubm.means) * sc_
+            ubm_s.variances = np.asarray(ubm.variances) * sc_ * sc_
+            ms_ = fa.make_machine(kind, ubm_s, rU, rV, U=np.asarray(m.U) * sc_, V=(np.asarray(m.V) * sc_) if kind == "jfa" else None, Dv=np.asarray(m.D) * sc_)
+            ms_.enroll_iterations = K
+            st_s = []
+            for q_ in stats:
+                qs_ = _cp.copy(q_)
+                qs_.n, qs_.sum_px, qs_.sum_pxx = np.array(q_.n, dtype=float), np.asarray(q_.sum_px, dtype=float) * sc_, np.asarray(q_.sum_pxx, dtype=float) * sc_ * sc_
+                st_s.append(qs_)
+            m.enroll_iterations = K
+            f1_, f2_ = m.enroll(stats), ms_.enroll(st_s)
+            chk.count(1, key=("features in tiny units", kind))
+            if not all(np.allclose(np.asarray(a_, dtype=float), np.asarray(b_, dtype=float), rtol=1e-6, atol=1e-9) for a_, b_ in zip(f1_, f2_)):
+                chk.fail("%s enrolment of the same problem with the features in units 1e7 times larger (UBM variances around %.1e) gives other factors"
+                         % (kind, float(np.median(np.asarray(ubm_s.variances)))), dict(ctx, feature_scale=sc_))
         if i % 5 == 2:
             # enrol, train the SAME machine object further, enrol again: the second enrolment is that of a fresh machine holding the trained U, V, D
             mt_ = copy.deepcopy(m)
